@@ -24,7 +24,7 @@ ASSUMPTIONS = ['unconnected input pin reads constant 0; for AND/OR/XOR families 
 REACH = {'sim.SimOps': ('sim.py', 159, 334), 'logic_sim.prop2': ('logic_sim.py', 298, 336), 'logic_sim.api': ('logic_sim.py', 49, 53)}
 
 N_COMBOS = sum(2 ** ar for ar, _ in G.FUNCS.values())
-FEATS = ['unconn_in', 'unconn_out', 'ff_no_d', 'out_read', 'wiring', 'consts', 'floating']
+FEATS = ['unconn_in', 'unconn_out', 'ff_no_d', 'out_read', 'wiring', 'consts', 'floating', 'ff_unread']
 
 
 def plan(tier, seed):
